@@ -98,10 +98,13 @@ fn is_private(name: &str) -> bool {
 
 // ---------- source text ----------
 
+/// a configured value of `null` (only used for declared names, so no variable stays null)
+const NULLV: i64 = i64::MIN;
+
 fn with_text(w: &[WithArg]) -> String {
     let parts: Vec<String> = w
         .iter()
-        .map(|a| format!("${}: {}{}", a.name, a.val, if a.dflt { " !default" } else { "" }))
+        .map(|a| format!("${}: {}{}", a.name, if a.val == NULLV { "null".to_string() } else { a.val.to_string() }, if a.dflt { " !default" } else { "" }))
         .collect();
     format!(" with ({})", parts.join(", "))
 }
@@ -431,11 +434,15 @@ impl World<'_> {
             let mut val = v;
             if dflt {
                 if self.on(F_CFG) {
-                    if self.mods[m].own.vars.contains_key(n) {
+                    // pre-defined by `with`: `!default` keeps it unless it is null
+                    if self.mods[m].own.vars.get(n).is_some_and(|c| self.cells[*c] != NULLV) {
                         continue;
                     }
                 } else if let Some((_, idx)) = incoming.iter().find(|(k, _)| k == n) {
-                    val = self.cfg[*idx].val;
+                    // a configured null counts as configured (used) but lets the default apply
+                    if self.cfg[*idx].val != NULLV {
+                        val = self.cfg[*idx].val;
+                    }
                     self.cfg[*idx].used = true;
                 }
             }
@@ -933,10 +940,19 @@ fn pr_af(ns: &str, name: &str, read: &str) -> Probe {
 
 /// All with-clauses: sequences of length 0..=max over the (name, value) alphabet;
 /// the k-th entry gets value 7 + k so that duplicates are distinguishable.
-fn with_lists(names: &[&str], max: usize) -> Vec<Vec<WithArg>> {
+fn with_lists(names: &[&str], max: usize, nulls: bool) -> Vec<Vec<WithArg>> {
     let mut out = Vec::new();
     for s in vp::gen::seqs_upto(names.len(), max) {
-        out.push(s.iter().enumerate().map(|(k, i)| wa(names[*i], 7 + k as i64)).collect());
+        let l: Vec<WithArg> = s.iter().enumerate().map(|(k, i)| wa(names[*i], 7 + k as i64)).collect();
+        // the same list with `null` as its first value (declared names only)
+        if nulls && l.first().is_some_and(|w| w.name != "u") {
+            let mut n = l.clone();
+            n[0].val = NULLV;
+            out.push(l);
+            out.push(n);
+        } else {
+            out.push(l);
+        }
     }
     out
 }
@@ -1181,7 +1197,7 @@ fn main() {
         let maxw = if quick { 2 } else { 3 };
         let mut cases = Vec::new();
         for members in if quick { vec!["leaf"] } else { vec!["leaf", "leaf_"] } {
-            for with in with_lists(names, maxw) {
+            for with in with_lists(names, maxw, true) {
                 for as_ in ["", "n", "*"] {
                     for wf in [false, true] {
                         if wf && (as_.is_empty() || with.is_empty()) {
@@ -1377,7 +1393,8 @@ fn main() {
             ("show", vec!["d", "p-d"]),
         ];
         let mut cases = Vec::new();
-        for with in with_lists(cfg_names, maxw) {
+        // (null configuration values are enumerated for direct @use only)
+        for with in with_lists(cfg_names, maxw, false) {
             for fw in &fwd_withs {
                 for (fk, fnames) in &filters {
                     for prefix in ["", "p-"] {
